@@ -1,7 +1,291 @@
-//! generic / prelude layer operations of the replay script (extended progressively)
-use crate::{Env};
-use serde_json::Value as J;
+//! generic / prelude layer operations of the replay script: builder call sequences and parser configurations run against the real crate
+use crate::{guarded, keys_for, parse_core, Env, Outcome};
+use rusty_paseto::prelude::*;
+use serde_json::{json, Value as J};
+use std::cell::RefCell;
+use std::collections::HashMap;
 
-pub fn step(_env: &mut Env, _op: &str, _st: &J, _out: &str) -> Option<J> {
-    None
+fn arr<const N: usize>(v: &[u8]) -> [u8; N] {
+    let mut a = [0u8; N];
+    for (i, b) in v.iter().take(N).enumerate() {
+        a[i] = *b;
+    }
+    a
+}
+
+fn leak(s: &str) -> &'static str {
+    Box::leak(s.to_string().into_boxed_str())
+}
+
+thread_local! {
+    static CALLS: RefCell<Vec<(String, String)>> = RefCell::new(vec![]);
+}
+
+/// one builder call
+fn apply_prelude<'a, V, P>(b: &mut PasetoBuilder<'a, V, P>, op: &'a J) -> Result<(), String> {
+    let o = op.as_array().ok_or("op")?;
+    let name = o[0].as_str().unwrap_or("");
+    let s = |i: usize| o.get(i).and_then(|x| x.as_str()).unwrap_or("");
+    match name {
+        "set" => match s(1) {
+            "exp" => { b.set_claim(ExpirationClaim::try_from(s(2)).map_err(|e| e.to_string())?); }
+            "nbf" => { b.set_claim(NotBeforeClaim::try_from(s(2)).map_err(|e| e.to_string())?); }
+            "iat" => { b.set_claim(IssuedAtClaim::try_from(s(2)).map_err(|e| e.to_string())?); }
+            "iss" => { b.set_claim(IssuerClaim::from(s(2))); }
+            "sub" => { b.set_claim(SubjectClaim::from(s(2))); }
+            "aud" => { b.set_claim(AudienceClaim::from(s(2))); }
+            "jti" => { b.set_claim(TokenIdentifierClaim::from(s(2))); }
+            k => { b.set_claim(CustomClaim::try_from((k, o.get(2).cloned().unwrap_or(J::Null))).map_err(|e| e.to_string())?); }
+        },
+        "ack" => { b.set_no_expiration_danger_acknowledged(); }
+        "footer" => { b.set_footer(Footer::from(s(1))); }
+        _ => return Err(format!("unknown builder op {}", name)),
+    }
+    Ok(())
+}
+
+fn apply_generic<'a, V, P>(b: &mut GenericBuilder<'a, 'a, V, P>, op: &'a J) -> Result<(), String> {
+    let o = op.as_array().ok_or("op")?;
+    let name = o[0].as_str().unwrap_or("");
+    let s = |i: usize| o.get(i).and_then(|x| x.as_str()).unwrap_or("");
+    match name {
+        "set" => match s(1) {
+            "exp" => { b.set_claim(ExpirationClaim::try_from(s(2)).map_err(|e| e.to_string())?); }
+            "nbf" => { b.set_claim(NotBeforeClaim::try_from(s(2)).map_err(|e| e.to_string())?); }
+            "iat" => { b.set_claim(IssuedAtClaim::try_from(s(2)).map_err(|e| e.to_string())?); }
+            "iss" => { b.set_claim(IssuerClaim::from(s(2))); }
+            "sub" => { b.set_claim(SubjectClaim::from(s(2))); }
+            "aud" => { b.set_claim(AudienceClaim::from(s(2))); }
+            "jti" => { b.set_claim(TokenIdentifierClaim::from(s(2))); }
+            k => { b.set_claim(CustomClaim::try_from((k, o.get(2).cloned().unwrap_or(J::Null))).map_err(|e| e.to_string())?); }
+        },
+        "remove" => { b.remove_claim(s(1)); }
+        "footer" => { b.set_footer(Footer::from(s(1))); }
+        _ => return Err(format!("unknown builder op {}", name)),
+    }
+    Ok(())
+}
+
+macro_rules! seq_impl {
+    ($fname:ident, $V:ty, $P:ty, $build:ident, $mkkey:expr, $ia:tt) => {
+        fn $fname(layer: &str, sk: &[u8], ops: &[J]) -> Vec<J> {
+            let key = $mkkey(sk);
+            let mut outs = vec![];
+            if layer == "prelude" {
+                let mut b = PasetoBuilder::<$V, $P>::default();
+                for op in ops {
+                    let name = op[0].as_str().unwrap_or("");
+                    if name == "build" {
+                        let r = guarded(|| b.build(&key).map_err(|e| format!("{:?}", e)));
+                        outs.push(json!({"build": r.kind(), "value": match &r { Outcome::Ok(s) | Outcome::Err(s) | Outcome::Panic(s) => s.clone() }}));
+                    } else if name == "assertion" {
+                        seq_impl!(@ia $ia, b, op);
+                    } else if let Err(e) = apply_prelude(&mut b, op) {
+                        outs.push(json!({"op_error": e}));
+                    }
+                }
+            } else {
+                let mut b = GenericBuilder::<$V, $P>::default();
+                for op in ops {
+                    let name = op[0].as_str().unwrap_or("");
+                    if name == "build" {
+                        let r = guarded(|| b.$build(&key).map_err(|e| format!("{:?}", e)));
+                        outs.push(json!({"build": r.kind(), "value": match &r { Outcome::Ok(s) | Outcome::Err(s) | Outcome::Panic(s) => s.clone() }}));
+                    } else if name == "assertion" {
+                        seq_impl!(@ia $ia, b, op);
+                    } else if let Err(e) = apply_generic(&mut b, op) {
+                        outs.push(json!({"op_error": e}));
+                    }
+                }
+            }
+            outs
+        }
+    };
+    (@ia yes, $b:ident, $op:ident) => { $b.set_implicit_assertion(ImplicitAssertion::from($op[1].as_str().unwrap_or(""))); };
+    (@ia no, $b:ident, $op:ident) => {};
+}
+
+fn symk<V>(sk: &[u8]) -> PasetoSymmetricKey<V, Local> { PasetoSymmetricKey::<V, Local>::from(Key::<32>::from(arr::<32>(sk))) }
+
+seq_impl!(seq_v1l, V1, Local, try_encrypt, symk::<V1>, no);
+seq_impl!(seq_v2l, V2, Local, try_encrypt, symk::<V2>, no);
+seq_impl!(seq_v3l, V3, Local, try_encrypt, symk::<V3>, yes);
+seq_impl!(seq_v4l, V4, Local, try_encrypt, symk::<V4>, yes);
+
+fn seq_public(proto: &str, layer: &str, sk: &[u8], ops: &[J]) -> Vec<J> {
+    macro_rules! go {
+        ($V:ty, $key:expr, $ia:tt) => {{
+            let key = $key;
+            let mut outs = vec![];
+            if layer == "prelude" {
+                let mut b = PasetoBuilder::<$V, Public>::default();
+                for op in ops {
+                    let name = op[0].as_str().unwrap_or("");
+                    if name == "build" {
+                        let r = guarded(|| b.build(&key).map_err(|e| format!("{:?}", e)));
+                        outs.push(json!({"build": r.kind(), "value": match &r { Outcome::Ok(s) | Outcome::Err(s) | Outcome::Panic(s) => s.clone() }}));
+                    } else if name == "assertion" {
+                        seq_impl!(@ia $ia, b, op);
+                    } else if let Err(e) = apply_prelude(&mut b, op) {
+                        outs.push(json!({"op_error": e}));
+                    }
+                }
+            } else {
+                let mut b = GenericBuilder::<$V, Public>::default();
+                for op in ops {
+                    let name = op[0].as_str().unwrap_or("");
+                    if name == "build" {
+                        let r = guarded(|| b.try_sign(&key).map_err(|e| format!("{:?}", e)));
+                        outs.push(json!({"build": r.kind(), "value": match &r { Outcome::Ok(s) | Outcome::Err(s) | Outcome::Panic(s) => s.clone() }}));
+                    } else if name == "assertion" {
+                        seq_impl!(@ia $ia, b, op);
+                    } else if let Err(e) = apply_generic(&mut b, op) {
+                        outs.push(json!({"op_error": e}));
+                    }
+                }
+            }
+            outs
+        }};
+    }
+    match proto {
+        "v1.public" => go!(V1, PasetoAsymmetricPrivateKey::<V1, Public>::from(sk), no),
+        "v2.public" => { let k = Key::<64>::from(arr::<64>(sk)); go!(V2, PasetoAsymmetricPrivateKey::<V2, Public>::from(&k), no) }
+        "v3.public" => { let k = Key::<48>::from(arr::<48>(sk)); go!(V3, PasetoAsymmetricPrivateKey::<V3, Public>::from(&k), yes) }
+        _ => { let k = Key::<64>::from(arr::<64>(sk)); go!(V4, PasetoAsymmetricPrivateKey::<V4, Public>::from(&k), yes) }
+    }
+}
+
+/// parser configuration run: expected claims, validators, repeated parses
+fn validator_for(kind: &str) -> &'static ValidatorFn {
+    match kind {
+        "accept" => &|k, v| { CALLS.with(|c| c.borrow_mut().push((k.to_string(), v.to_string()))); Ok(()) },
+        "reject" => &|k, v| { CALLS.with(|c| c.borrow_mut().push((k.to_string(), v.to_string()))); Err(PasetoClaimError::CustomValidation(k.to_string())) },
+        _ => &|k, v| { CALLS.with(|c| c.borrow_mut().push((k.to_string(), v.to_string()))); if v.is_null() { Err(PasetoClaimError::CustomValidation(k.to_string())) } else { Ok(()) } },
+    }
+}
+
+macro_rules! parse_impl {
+    ($V:ty, $P:ty, $key:expr, $ia:tt, $st:ident, $toks:ident) => {{
+        let key = $key;
+        let layer = $st["layer"].as_str().unwrap_or("generic");
+        let footer = $st["footer"].as_str();
+        let assertion = $st["assertion"].as_str();
+        let checks: Vec<J> = $st["checks"].as_array().cloned().unwrap_or_default();
+        let vals: Vec<J> = $st["validators"].as_array().cloned().unwrap_or_default();
+        let mut outs = vec![];
+        macro_rules! configure {
+            ($p:ident) => {
+                if let Some(f) = footer { $p.set_footer(Footer::from(f)); }
+                parse_impl!(@ia $ia, $p, assertion);
+                for c in &checks {
+                    let k = c["key"].as_str().unwrap_or("");
+                    let sv: &'static str = leak(c["value"].as_str().unwrap_or(""));
+                    match k {
+                        "iss" => { $p.check_claim(IssuerClaim::from(sv)); }
+                        "sub" => { $p.check_claim(SubjectClaim::from(sv)); }
+                        "aud" => { $p.check_claim(AudienceClaim::from(sv)); }
+                        "jti" => { $p.check_claim(TokenIdentifierClaim::from(sv)); }
+                        _ => { if let Ok(cc) = CustomClaim::try_from((k.to_string(), c["value"].clone())) { $p.check_claim(cc); } }
+                    }
+                }
+            };
+        }
+        if layer == "prelude" {
+            let mut p = if $st["default_parser"].as_bool().unwrap_or(true) { PasetoParser::<$V, $P>::default() } else { PasetoParser::<$V, $P>::new() };
+            configure!(p);
+            for v in &vals {
+                let k = v["key"].as_str().unwrap_or("");
+                if let Ok(cc) = CustomClaim::try_from(k) { p.validate_claim(cc, validator_for(v["kind"].as_str().unwrap_or("accept"))); }
+            }
+            for t in $toks.iter() {
+                CALLS.with(|c| c.borrow_mut().clear());
+                let r = guarded(|| p.parse(t, &key).map(|v| v.to_string()).map_err(|e| format!("{:?}", e)));
+                let calls: Vec<J> = CALLS.with(|c| c.borrow().iter().map(|(k, v)| json!([k, v])).collect());
+                outs.push(json!({"parse": r.kind(), "value": match &r { Outcome::Ok(s) | Outcome::Err(s) | Outcome::Panic(s) => s.clone() }, "validator_calls": calls}));
+            }
+        } else {
+            let mut p = GenericParser::<$V, $P>::default();
+            configure!(p);
+            let mut ext: ValidatorMap = HashMap::new();
+            for v in &vals {
+                let k = v["key"].as_str().unwrap_or("");
+                if v["via"].as_str() == Some("extend") {
+                    ext.insert(k.to_string(), Box::new(validator_for(v["kind"].as_str().unwrap_or("accept"))));
+                } else if let Ok(cc) = CustomClaim::try_from(k) {
+                    p.validate_claim(cc, validator_for(v["kind"].as_str().unwrap_or("accept")));
+                }
+            }
+            if !ext.is_empty() { p.extend_validation_claims(ext); }
+            for t in $toks.iter() {
+                CALLS.with(|c| c.borrow_mut().clear());
+                let r = guarded(|| p.parse(t, &key).map(|v| v.to_string()).map_err(|e| format!("{:?}", e)));
+                let calls: Vec<J> = CALLS.with(|c| c.borrow().iter().map(|(k, v)| json!([k, v])).collect());
+                outs.push(json!({"parse": r.kind(), "value": match &r { Outcome::Ok(s) | Outcome::Err(s) | Outcome::Panic(s) => s.clone() }, "validator_calls": calls}));
+            }
+        }
+        outs
+    }};
+    (@ia yes, $p:ident, $a:ident) => { if let Some(a) = $a { $p.set_implicit_assertion(ImplicitAssertion::from(a)); } };
+    (@ia no, $p:ident, $a:ident) => { let _ = $a; };
+}
+
+fn parser_run(proto: &str, pk: &[u8], st: &J, toks: &[String]) -> Vec<J> {
+    match proto {
+        "v1.local" => parse_impl!(V1, Local, symk::<V1>(pk), no, st, toks),
+        "v2.local" => parse_impl!(V2, Local, symk::<V2>(pk), no, st, toks),
+        "v3.local" => parse_impl!(V3, Local, symk::<V3>(pk), yes, st, toks),
+        "v4.local" => parse_impl!(V4, Local, symk::<V4>(pk), yes, st, toks),
+        "v1.public" => parse_impl!(V1, Public, PasetoAsymmetricPublicKey::<V1, Public>::from(pk), no, st, toks),
+        "v2.public" => { let k = Key::<32>::from(arr::<32>(pk)); parse_impl!(V2, Public, PasetoAsymmetricPublicKey::<V2, Public>::from(&k), no, st, toks) }
+        "v3.public" => { let k = Key::<49>::from(arr::<49>(pk)); match PasetoAsymmetricPublicKey::<V3, Public>::try_from(&k) { Ok(pkk) => parse_impl!(V3, Public, pkk, yes, st, toks), Err(e) => vec![json!({"key_error": format!("{:?}", e)})] } }
+        _ => { let k = Key::<32>::from(arr::<32>(pk)); parse_impl!(V4, Public, PasetoAsymmetricPublicKey::<V4, Public>::from(&k), yes, st, toks) }
+    }
+}
+
+pub fn step(env: &mut Env, op: &str, st: &J, out: &str) -> Option<J> {
+    match op {
+        "builder_seqs" => {
+            // many call sequences in one go; every build outcome is reported, with the payload read back through the core
+            let proto = st["proto"].as_str().unwrap_or("v4.local");
+            let layer = st["layer"].as_str().unwrap_or("prelude");
+            let (sk, pk) = keys_for(proto, &crate::hexv(&st["seed"]), None);
+            let footer = st["parse_footer"].as_str();
+            let mut all = vec![];
+            for seq in st["seqs"].as_array().cloned().unwrap_or_default() {
+                let ops = seq.as_array().cloned().unwrap_or_default();
+                let mut outs = match proto {
+                    "v1.local" => seq_v1l(layer, &sk, &ops),
+                    "v2.local" => seq_v2l(layer, &sk, &ops),
+                    "v3.local" => seq_v3l(layer, &sk, &ops),
+                    "v4.local" => seq_v4l(layer, &sk, &ops),
+                    _ => seq_public(proto, layer, &sk, &ops),
+                };
+                // read the payload of every produced token back
+                let mut f: Option<String> = footer.map(|s| s.to_string());
+                let mut a: Option<String> = None;
+                for o in &ops {
+                    if o[0] == "footer" { f = o[1].as_str().map(|s| s.to_string()); }
+                    if o[0] == "assertion" { a = o[1].as_str().map(|s| s.to_string()); }
+                }
+                for b in outs.iter_mut() {
+                    if b["build"] == "ok" {
+                        let tok = b["value"].as_str().unwrap_or("").to_string();
+                        let r = parse_core(proto, &tok, &pk, f.as_deref(), a.as_deref());
+                        b["payload"] = json!(r.text());
+                    }
+                }
+                all.push(json!({"seq": seq, "outs": outs}));
+            }
+            env.strs.insert(out.to_string(), serde_json::to_string(&all).unwrap());
+            Some(json!({"builder_seqs": out, "results": all}))
+        }
+        "parser_run" => {
+            let proto = st["proto"].as_str().unwrap_or("v4.local");
+            let pk = env.bytes_of(&st["key"]);
+            let toks: Vec<String> = st["tokens"].as_array().cloned().unwrap_or_default().iter().map(|t| env.str_of(t).unwrap_or_default()).collect();
+            let outs = parser_run(proto, &pk, st, &toks);
+            Some(json!({"parser_run": out, "results": outs}))
+        }
+        _ => None,
+    }
 }
